@@ -32,6 +32,7 @@ from octave_mcp.core.ast_nodes import (
     Section,
 )
 from octave_mcp.core.emitter import emit
+from octave_mcp.core.file_ops import lock_directory_for_cas
 from octave_mcp.core.gbnf_compiler import GBNFCompiler
 from octave_mcp.core.hydrator import resolve_hermetic_standard
 from octave_mcp.core.lexer import FENCE_PATTERN, LexerError, tokenize
@@ -1695,26 +1696,38 @@ class WriteTool(BaseTool):
                     f.flush()
                     os.fsync(f.fileno())
 
-                # TOCTOU protection: recheck base_hash before replace
-                if base_hash and file_exists:
-                    with open(target_path, encoding="utf-8") as verify_f:
-                        verify_content = verify_f.read()
-                    verify_hash = self._compute_hash(verify_content)
-                    if verify_hash != base_hash:
-                        os.unlink(temp_path)
-                        return self._error_envelope(
-                            target_path,
-                            [
-                                {
-                                    "code": "E_HASH",
-                                    "message": f"Hash mismatch before write - file was modified during operation (expected {base_hash[:8]}..., got {verify_hash[:8]}...)",
-                                }
-                            ],
-                            result["corrections"],
-                        )
+                # TOCTOU protection: recheck base_hash before replace, under an exclusive
+                # advisory lock so that re-check + replace is atomic among cooperating writers
+                # (without it two writers holding the same base_hash could both succeed).
+                lock_fd: int | None = None
+                try:
+                    if base_hash and file_exists:
+                        lock_fd = lock_directory_for_cas(path_obj.parent)
+                        with open(target_path, encoding="utf-8") as verify_f:
+                            verify_content = verify_f.read()
+                        verify_hash = self._compute_hash(verify_content)
+                        if verify_hash != base_hash:
+                            os.unlink(temp_path)
+                            return self._error_envelope(
+                                target_path,
+                                [
+                                    {
+                                        "code": "E_HASH",
+                                        "message": f"Hash mismatch before write - file was modified during operation (expected {base_hash[:8]}..., got {verify_hash[:8]}...)",
+                                    }
+                                ],
+                                result["corrections"],
+                            )
 
-                # Atomic replace
-                os.replace(temp_path, target_path)
+                    # Atomic replace
+                    os.replace(temp_path, target_path)
+                finally:
+                    # releasing the lock must never turn a completed replace into an error
+                    if lock_fd is not None:
+                        try:
+                            os.close(lock_fd)
+                        except OSError:
+                            pass
 
             except Exception:
                 # Remove the temp file unconditionally: guarding the unlink with
